@@ -7,6 +7,8 @@ import (
 	"reflect"
 	"strconv"
 	"strings"
+	"testing"
+	"testing/synctest"
 	"time"
 
 	"github.com/verily-src/fhirpath-go/fhirpath"
@@ -64,6 +66,21 @@ type runCtx struct {
 
 	rootOp  *opCtx   // operation context while the root executes an operation
 	taskOps []*opCtx // operation context of each client task (indexed by task id)
+}
+
+// runBubble executes f inside a synctest bubble, in a sub-test of its own: when the race
+// detector fires inside the bubble the testing package fails the bubble's T and calls
+// FailNow on its parent, which must not abort the worker (it still has to attribute the
+// race to the case and write its report).
+func runBubble(t *testing.T, f func(t *testing.T)) {
+	var pv any
+	t.Run("b", func(t *testing.T) {
+		defer func() { pv = recover() }()
+		synctest.Test(t, f)
+	})
+	if pv != nil {
+		panic(pv) // re-raised in the caller, which turns it into infrastructure trouble
+	}
 }
 
 var theRun *runCtx
